@@ -13,7 +13,7 @@ from typing import Any
 
 from harness.common import Check, err_enum
 from harness.gen_copybook import Node, Style, TreeGen, clusters_ok, item_tokens, path_token, preorder, render, spec_layout
-from harness.layout_common import build_docs, dump_doc, extra_paths, impl_range, load, nav_path, pattern_record
+from harness.layout_common import held_ranges, build_docs, dump_doc, extra_paths, impl_range, load, nav_path, pattern_record
 
 KNOWN_SHAPES = {
     "elem-occurs-redefines": "D34:elementary-occurs-redefines-participant",
@@ -139,6 +139,15 @@ def one_tree(ck: Check, root: Node, reqs: list[str], impl: list[str], inputs: li
             if raw != src[spec[p][0]:spec[p][1]]:
                 ck.fail(sig, f"raw() of {path_token(p)} is not record[{spec[p][0]}:{spec[p][1]}]", {**inp, "path": path_token(p)})
                 break
+    # ---- the same ranges through navigators that are all built first and read afterwards
+    ck.oracle_evaluations += 1
+    held = held_ranges(nav, paths)
+    for p in paths:
+        want = f"{spec[p][0]}:{spec[p][1]}"
+        if p in held and held[p] != want:
+            ck.fail(sig, f"path {path_token(p)}, reached through navigators built before any was read, is at {held[p]}; the layout rule "
+                         f"assigns {want}", {**inp, "path": path_token(p), "held": True})
+            break
     # ---- model (only for trees inside the model's domain: adjacent redefiners)
     if sig == "layout" and clusters_ok(root):
         reqs.append(f"LAY dump {toks}")
